@@ -1,7 +1,7 @@
 """C08 - Conservative systems conserve energy and momentum.
 
 Domain : conservative generated models (no damping, frictionloss, actuators, limits, contacts, fluid; joint/tendon
-         polynomial springs, armature; gravity on/off), RK4, timestep refinement h, h/2, h/4 over a fixed horizon.
+         polynomial springs, armature; gravity on/off), RK4, timestep refinement h, h/2, h/4, h/8 over a fixed horizon.
 Oracle : invariants + a reference: (a) sup-norm energy drift of RK4 shrinks at ~4th order (observed order >= 2.5 for hinge/slide models
          when both refinement ratios agree, i.e. in the asymptotic regime; always: drift does not grow under
          refinement); (b) gravity off, free-floating tree: linear and angular momentum (mj_subtreeVel) constant up to
@@ -65,11 +65,11 @@ def main(ck):
                                                                         abs(a[i] - b[i]) / r[i]), bucket=bucket)
 
   ck.rule = ('conservative gen_smooth models (1-4 bodies quick / 1-7 thorough; springs incl. polynomial and tendon '
-             'dead-band, armature, gravity on/off/tilted) x random state; RK4 at h, h/2, h/4 over %d*h; h chosen so that '
+             'dead-band, armature, gravity on/off/tilted) x random state; RK4 at h, h/2, h/4, h/8 over %d*h; h chosen so that '
              'max(rate, spring frequency)*h <= 0.2; non-trivial = >=2 moving bodies, a rotational dof, and |dKE| > 1%% '
              'of the energy scale during the run; distinct by (xml, state seed)' % NSTEP)
   ck.assumptions = [
-      'order assertion only when the two successive refinement ratios agree within a factor 2.5 and the drift is above '
+      'order assertion only when the two finest successive refinement ratios agree within a factor 1.5 and the drift is above '
       'round-off (asymptotic regime); otherwise only "refinement does not increase the drift" is asserted',
       'tendon armature that couples dofs outside the tree pattern of M, or acts on a ball joint followed by a slide in '
       'one body, is excluded from (a)/(b) (engine deviations reported under C06/C07)',
@@ -262,7 +262,7 @@ def main(ck):
       if jt[j] in (E.mjJNT_BALL, E.mjJNT_FREE) and (float(m.jnt_stiffness[j]) != 0 or np.any(np.array(m.jnt_stiffnesspoly[j]) != 0)):
         pa = int(m.jnt_qposadr[j]) + (3 if jt[j] == E.mjJNT_FREE else 0)
         quat_springs.append((pa, np.array(m.qpos_spring[pa:pa + 4])))
-    res = [run(m, d, h / f, NSTEP * f, roots, quat_springs) for f in (1, 2, 4)]
+    res = [run(m, d, h / f, NSTEP * f, roots, quat_springs) for f in (1, 2, 4, 8)]
     if any(r is None for r in res):
       labels.append('unstable-or-warning')
       ck.case(nontrivial=False, key=(gm.xml, seed), labels=labels)
@@ -271,7 +271,7 @@ def main(ck):
     KEs = res[2][0][:, 1]
     escale = float(np.abs(res[2][0]).max() + np.abs(res[2][0][:, 0] - res[2][0][0, 0]).max() + kscale) + 1e-300
     drift = [float(np.abs(e - e[0]).max()) for e in Et]
-    floor = 100 * EPS * escale * np.sqrt(NSTEP * 4)
+    floor = 100 * EPS * escale * np.sqrt(NSTEP * 8)
     exchange = float(np.abs(KEs - KEs[0]).max()) / escale
     rot = bool(np.any(jt != E.mjJNT_SLIDE))
     moving = len([b for b in range(1, m.nbody) if int(m.body_dofnum[b]) > 0])
@@ -292,17 +292,19 @@ def main(ck):
       # refinement must not make it worse (beyond round-off), whatever the regime
       if drift[2] > max(drift[0], floor) * 1.5 + floor:
         raise Violation('energy drift grows under timestep refinement: %s (scale %.3g, h=%.3g)' % (drift, escale, h), bucket='energy-refinement')
-      if drift[1] > 30 * floor and drift[2] > 30 * floor:
-        r1, r2 = drift[0] / drift[1], drift[1] / drift[2]
-        if max(r1, r2) / min(r1, r2) < 2.5 and drift[0] < 1e-3 * escale:
+      # use the finest pair of successive refinement ratios whose drifts are all above round-off
+      lv = 1 if drift[3] > 30 * floor else 0
+      if drift[lv + 1] > 30 * floor and drift[lv + 2] > 30 * floor:
+        r1, r2 = drift[lv] / drift[lv + 1], drift[lv + 1] / drift[lv + 2]
+        if max(r1, r2) / min(r1, r2) < 1.5 and drift[lv] < 1e-3 * escale:
           order = float(np.log2(np.sqrt(r1 * r2)))
           labels.append('order-asserted')
           sample['order'] = order
           track('order-min', -order)
           quat = regime != 'hs'
           # in the asymptotic regime a resolved conservative system cannot lose/gain a visible fraction of its energy
-          if drift[2] > 1e-4 * escale + floor:
-            raise Violation('energy not conserved: sup|E(t)-E(0)| = %s for h, h/2, h/4 = %.3g/(1,2,4), energy scale %.3g' % (drift, h, escale),
+          if drift[3] > 1e-3 * escale + floor:
+            raise Violation('energy not conserved: sup|E(t)-E(0)| = %s for h/(1,2,4,8), h = %.3g, energy scale %.3g' % (drift, h, escale),
                             bucket='energy-conservation')
           labels.append('order:' + regime)
           ck.extra.setdefault('orders_' + regime, []).append(round(order, 2))
